@@ -58,7 +58,7 @@ def c16_stages(ctx):
 
 
 SUB_SPEC = ["sub=d=mem", "sub=d/e=kvplain", "sub=d=sub=e=mem", "sub=d=oshp", "sub=d=sub=.=oshp", "sub=d=mntat"]   # state follows FSCore inside the view
-SUB_TWIN = ["sub=d=openonly", "sub=d=mntabove", "sub=d/e=mntnested"]                                              # twin comparison only
+SUB_TWIN = ["sub=d=openonly", "sub=d=mntabove", "sub=d/e=mntnested", "sub=d=mntatnested"]                                              # twin comparison only
 
 
 def sub_stages(ctx, wf="-"):
